@@ -643,18 +643,31 @@ func (c *Ctx) RuleCounterSlack(fn *ssa.Function, limitVar string) {
 			return 0, nil, false
 		}
 		bo, isB := iff.Cond.(*ssa.BinOp)
-		if !isB || bo.X != counter {
+		if !isB {
 			return 0, nil, false
 		}
-		g := globalLoad(bo.Y)
+		// normalise to `counter OP Max`
+		op := bo.Op
+		var g *ssa.Global
+		switch {
+		case bo.X == ssa.Value(counter):
+			g = globalLoad(bo.Y)
+		case bo.Y == ssa.Value(counter):
+			g = globalLoad(bo.X)
+			op = flip(op)
+		}
 		if g == nil || g.Name() != limitVar {
 			return 0, nil, false
 		}
-		switch bo.Op {
-		case token.GTR:
+		switch op {
+		case token.GTR: // i > Max fails
 			return 0, b.Succs[1], true
-		case token.GEQ:
+		case token.GEQ: // i >= Max fails
 			return -1, b.Succs[1], true
+		case token.LEQ: // i <= Max passes
+			return 0, b.Succs[0], true
+		case token.LSS: // i < Max passes
+			return -1, b.Succs[0], true
 		}
 		return 0, nil, false
 	}
@@ -683,10 +696,23 @@ func (c *Ctx) RuleCounterSlack(fn *ssa.Function, limitVar string) {
 		// `Max != 0` test: on the edge where the limit is disabled nothing needs covering
 		if iff, ok := s.b.Instrs[len(s.b.Instrs)-1].(*ssa.If); ok {
 			if bo, ok := iff.Cond.(*ssa.BinOp); ok {
-				if g := globalLoad(bo.X); g != nil && g.Name() == limitVar {
-					if k, ok := constInt(bo.Y); ok && k == 0 && (bo.Op == token.NEQ || bo.Op == token.GTR) {
+				// `Max != 0` / `Max > 0` (enabled on the true edge), `Max == 0` (disabled on the true edge), constant on either side
+				zop, zg := bo.Op, globalLoad(bo.X)
+				zk, zok := constInt(bo.Y)
+				if zg == nil {
+					zg = globalLoad(bo.Y)
+					zk, zok = constInt(bo.X)
+					zop = flip(zop)
+				}
+				if zg != nil && zg.Name() == limitVar && zok && zk == 0 {
+					switch zop {
+					case token.NEQ, token.GTR:
 						walk(st{s.b.Succs[0], u, s.checked}, depth+1)
 						walk(st{s.b.Succs[1], -1 << 20, true}, depth+1)
+						return
+					case token.EQL, token.LEQ:
+						walk(st{s.b.Succs[1], u, s.checked}, depth+1)
+						walk(st{s.b.Succs[0], -1 << 20, true}, depth+1)
 						return
 					}
 				}
@@ -742,14 +768,25 @@ func isErrorReturnBlock(b *ssa.BasicBlock) bool {
 	if _, isExtract := e.(*ssa.Extract); !isExtract {
 		return true
 	}
-	// `return err` guarded by the true edge of `err != nil`
-	for _, p := range b.Preds {
-		iff, ok := p.Instrs[len(p.Instrs)-1].(*ssa.If)
-		if !ok || len(b.Preds) != 1 {
-			return false
+	// `return err` behind the edge on which err is known to be non-nil: the true edge of `err != nil` or the false edge
+	// of `err == nil`, anywhere up the dominator tree
+	for d := b; d.Idom() != nil; d = d.Idom() {
+		id := d.Idom()
+		iff, ok := id.Instrs[len(id.Instrs)-1].(*ssa.If)
+		if !ok {
+			continue
 		}
 		bo, ok := iff.Cond.(*ssa.BinOp)
-		if ok && bo.Op == token.NEQ && bo.X == e && isNilConst(bo.Y) && p.Succs[0] == b {
+		if !ok || bo.X != e || !isNilConst(bo.Y) {
+			continue
+		}
+		nonNil := id.Succs[0]
+		if bo.Op == token.EQL {
+			nonNil = id.Succs[1]
+		} else if bo.Op != token.NEQ {
+			continue
+		}
+		if len(nonNil.Preds) == 1 && (nonNil == b || nonNil.Dominates(b)) {
 			return true
 		}
 	}
@@ -857,6 +894,23 @@ func (c *Ctx) RuleMulOverflow(fn *ssa.Function) {
 		}
 	}
 	if !found {
+		// the multiplication may sit in a helper of the function: the path rule above does not apply there, the
+		// decision table extracted from the function (helpers inlined) decides the high-word test
+		for _, f := range SortedFuncs(c.Reachable(fn)) {
+			if f == fn {
+				continue
+			}
+			for _, b := range f.Blocks {
+				for _, in := range b.Instrs {
+					if call, ok := in.(*ssa.Call); ok {
+						if g := call.Call.StaticCallee(); g != nil && g.String() == "math/bits.Mul64" {
+							c.add("discharged", "C08.ovf", fn, call.Pos(), "bits.Mul64 in helper "+FnName(f)+": the high-word test is decided by the decision table of "+FnName(fn))
+							return
+						}
+					}
+				}
+			}
+		}
 		c.add("undecided", "C08.ovf", fn, fn.Pos(), "no bits.Mul64 found (other overflow idioms not yet prototyped)")
 	}
 }
